@@ -10,6 +10,8 @@ def enc_len(n, form=None):
             return bytes([n])
         k = (n.bit_length() + 7) // 8
         return bytes([0x80 | k]) + n.to_bytes(k, "big")
+    if n >= 256 ** form:
+        return enc_len(n)
     return bytes([0x80 | form]) + n.to_bytes(form, "big")
 
 
